@@ -50,7 +50,7 @@ fn c06_part_sizes() {
 
 /// K<= (SIZE=4, both layouts, any refusal, any failing allocation): the real `VirtQueue::new` and drop
 #[kani::proof]
-#[kani::unwind(6)]
+#[kani::unwind(10)]
 fn c06_new_real() {
     log_reset();
     let mut t = KTransport::new(DeviceType::Block);
